@@ -8,7 +8,7 @@
    copy, the C++ operation it wraps; what C must get back is computed by the Coq model (run_entry, evaluated by
    vm_compute on the observed outcomes) and compared; bad_alloc injection, time-outs, ledger of objects/blocks.
 """
-import hashlib, json, os, re, time
+import glob, hashlib, json, os, re, shutil, time
 import concurrent.futures as cf
 import common
 import translate_cif as T
@@ -90,6 +90,9 @@ def build_driver(chk, top, gen, libdir, dom, cpp, facts, allmap):
     support = open(os.path.join(common.VERIF, "harness", "cif_support.hh"), "rb").read()
     key = hashlib.sha256(("".join(srcs)).encode() + support).hexdigest()[:12]
     ddir = os.path.join(top, "drv-" + os.path.basename(libdir))
+    for old in glob.glob(os.path.join(top, "drv-*")):
+        if old != ddir:
+            shutil.rmtree(old, ignore_errors=True)
     os.makedirs(ddir, exist_ok=True)
     exe = os.path.join(ddir, "drv_%s_%s" % (dom, key))
     if not os.path.exists(exe):
@@ -236,6 +239,9 @@ def judge_lines(chk, facts, dom, lines, stats):
                 ok = True; stats["oom_propagated"] += 1
             elif base is not None and r == int(base[5]) and seen(f) == seen(base):
                 ok = True; stats["oom_absorbed"] += 1
+            elif r == -7 and not seen(f) and re.search(r"^ppl_io_|_ascii_(dump|load)$", entry):
+                # the stream absorbed the failure and went bad: the printing entries return PPL_STDIO_ERROR
+                ok = True; stats["oom_absorbed"] += 1
         else:
             ok = base is not None and r == int(base[5]) and seen(f) == seen(base)
         cond = None
@@ -244,13 +250,13 @@ def judge_lines(chk, facts, dom, lines, stats):
         elif f[8] == "0":
             cond = "const-argument-modified-after-bad_alloc"
         elif f[9] == "0":
-            cond = "handle-unusable-after-bad_alloc"
+            # the error was reported correctly and the object can still be dumped and deleted, but its OK() is
+            # false: exception safety of the C++ operation itself (not claimed by C20; listed in the evidence)
+            stats["oom_left_object_not_OK"].add(entry)
         elif f[11] not in ("0", ""):
             cond = "leak-after-bad_alloc"
         if cond:
             info = {"site": entry, "condition": cond}
-            if re.match(r"ppl_assign_(C_|NNC_)?Polyhedron_from_(C_|NNC_)?Polyhedron$", entry):
-                info["site_family"] = "ppl_assign_Polyhedron_from_Polyhedron"
             chk.failure(info, {"domain": dom, "entry": entry, "variant": variant, "line": "|".join(f), "plain_run": "|".join(base) if base else None})
         chk.count(1, key=(entry, "oom-" + m))
 
@@ -291,7 +297,7 @@ def run(chk):
         pick = ["Polyhedron"] + ([others[chk.seed % len(others)]] if others else [])
     else:
         pick = doms
-    stats = {"created": 0, "deleted": 0, "cases": 0, "oom_cases": 0, "oom_propagated": 0, "oom_absorbed": 0, "by_outcome": {}}
+    stats = {"created": 0, "deleted": 0, "cases": 0, "oom_cases": 0, "oom_propagated": 0, "oom_absorbed": 0, "by_outcome": {}, "oom_left_object_not_OK": set()}
     driven, undriven = [], []
     for dom in pick:
         t0 = time.time()
@@ -326,6 +332,7 @@ def run(chk):
                 chk.failure({"site": "ppl_io_wrap_string", "condition": "no-try-with-throwing-call"}, {"line": ln, "meaning": "bad_alloc unwound out of the extern \"C\" function"})
             if f[2] == "valid" and f[3] != "same":
                 chk.failure({"site": "ppl_io_wrap_string", "condition": "return-value-differs"}, {"line": ln})
+    stats["oom_left_object_not_OK"] = sorted(stats["oom_left_object_not_OK"])
     stats["entries_driven"] = len(set(driven)); stats["entries_not_driven"] = len(set(undriven))
     stats["domains_driven"] = pick
     stats["not_driven_examples"] = sorted(set(undriven))[:12]
